@@ -1756,10 +1756,11 @@ pub fn op_coerce(case: &J) -> J {
           if ti % stride != offset {
             continue;
           }
-          // four invocation shapes in turn: positional, named, from another function whose parameter has the same
-          // name, and with a variable of the same name bound (non-null) around the invocation: what the body sees is
+          // five invocation shapes in turn: positional, named, from another function whose parameter has the same
+          // name, with a variable of the same name bound (non-null) around the invocation, and as the second use of a
+          // call site that served another function first: what the body sees is
           // the coerced argument whatever else carries that name further down the scope
-          let shape = (ti / stride + vi) % 4;
+          let shape = (ti / stride + vi) % 5;
           let text = match shape {
             1 => {
               named += 1;
@@ -1772,6 +1773,11 @@ pub fn op_coerce(case: &J) -> J {
             3 => {
               named += 1;
               format!("{{x: \"outer binding\", r: (function(x: {}) x)(x: {})}}.r", t, vtext)
+            }
+            4 => {
+              // one call site `f(..)` serving two differently typed functions in turn: the second call is the judged one
+              positional += 1;
+              format!("(for f in [function(x: Any) [x, x], function(x: {}) x] return f({}))[2]", t, vtext)
             }
             _ => {
               positional += 1;
